@@ -8,6 +8,7 @@ from ..core import AnalysisError, unparse, qualname
 from ..facts import get_facts
 from ..callgraph import get_callgraph
 from ..absint import Interp, Obj, InterpRaise, Uninterpretable, Unknown, explore, FuncVal
+from ..api_model import _source_suffixes
 
 EXPLANATION = (
     'Static analysis of supp/project.py. R1 root precedence: the search path used by get_module and by '
@@ -71,6 +72,8 @@ def run(repo, res):
     env = it.module_env(PROJECT)
     thorough = getattr(repo, 'tier', 'quick') == 'thorough'
     env['SUFFIXES'] = ['.py', '.so']
+    if isinstance(env.get('SOURCE_SUFFIXES'), Unknown) or 'SOURCE_SUFFIXES' in env and not isinstance(env['SOURCE_SUFFIXES'], (list, tuple)):
+        env['SOURCE_SUFFIXES'] = ['.py']      # (taken from importlib.machinery: the source suffix of this interpreter)
     roots_src = ['<S1>', '<S2>', '<S3>'] if thorough else ['<S1>', '<S2>']
     roots_sys = ['<P1>']
     roots = roots_src + roots_sys
@@ -163,6 +166,7 @@ def run(repo, res):
     # ---- R5 relative names (norm_package) on a fixed package tree, incl. call sequences on one project ----
     it2 = Interp(repo, facts)
     it2.module_env(PROJECT)['SUFFIXES'] = ['.py', '.so']
+    _source_suffixes(it2)
     # two source roots, the name of the first a string prefix of the name of the second (lib / lib2): which root a file lives under
     # is a question about path components, not about string prefixes
     it2.fs = {'<R>/top/__init__.py', '<R>/top/sub/__init__.py', '<R>/top/sub/deep/__init__.py',
@@ -257,7 +261,7 @@ def run(repo, res):
     # the package-name cache belongs to Project: what norm_package stores is what it computed from the directory structure
     from ..core import private_state_accesses
     priv, outside = private_state_accesses(repo, facts, 'Project')
-    res.count('project_private_tables', len(priv), floor=3)
+    res.count('project_private_tables', len(priv), floor=2)
     for attr, rel, line, qual in outside:
         if 'norm' in attr:
             res.check('C07-R5', '%s touched in %s' % (attr, qual), False, rel, line,
